@@ -1,1 +1,327 @@
-/-! Property theorems for C16 (not built yet). -/
+import Cellml.Iso.Lemmas
+import Cellml.Props.C07
+
+/-! # C16 — models and unit stores do not leak into one another
+
+    Model: `Iso/Namespace.lean` — the process state `Units.Wire.World` (registries; stores `(id, known names)` each
+    pointing at a registry; the store counter is the number of stores created), the operations `Iso.Op`
+    (`UnitStore()` / `UnitStore(other)` / `Model(…, unit_store=…)` / `load_model(…, unit_store=…)` = `newStore`;
+    `add_unit`; `add_base_unit`) indexed by the store they act on, `Iso.obsStore w i` = everything observable through
+    store `i` (its known names — hence `is_defined` of every name — and the root form scale / root units /
+    dimensionality of every known name, user-defined and built-in), `Iso.probe w i name` for arbitrary probe names,
+    `Iso.crossFactor` for conversions between units of two stores, `Iso.strip` for `_STORE_PREFIX.sub('', ·)`.
+
+    All theorems quantify over ALL reachable process states (any number of stores and registries, any history) and all
+    operation lists; nothing is bounded. The tie to cellmlmanip is `harness/props/c16.py`. -/
+
+namespace Cellml.Props.C16
+open Units Units.Wire Iso PMap
+
+/-! ### names -/
+
+/-- `_prefix_name` is injective on (store id, user name): two different (store, name) pairs never share a registry key.
+    Character-list proof: after `store` come the decimal digits of the id, which end at the first `_`
+    (`Nat.underscore_not_in_toDigits`), and the digits determine the id (`Nat.ofDigitChars_ten_toDigits`). -/
+theorem prefix_injective (i j : Nat) (n₁ n₂ : String)
+    (h₁ : Cellml.Gen.cellmlUnits.contains n₁ = false) (_h₂ : Cellml.Gen.cellmlUnits.contains n₂ = false)
+    (hne : (i, n₁) ≠ (j, n₂)) : prefixName i n₁ ≠ prefixName j n₂ := by
+  intro h
+  obtain ⟨rfl, rfl⟩ := prefixName_eq i j n₁ n₂ h₁ h
+  exact hne rfl
+
+/-- … and a user key never coincides with what a built-in name maps to (built-ins are not prefixed) -/
+theorem prefix_never_builtin (i j : Nat) (n b : String)
+    (hn : Cellml.Gen.cellmlUnits.contains n = false) (hb : Cellml.Gen.cellmlUnits.contains b = true) :
+    prefixName i n ≠ prefixName j b := by
+  intro h
+  obtain ⟨_, rfl⟩ := prefixName_eq i j n b hn h
+  rw [hn] at hb; cases hb
+
+/-- `format` shows the user's name: stripping `_STORE_PREFIX` from the registry key of the user-defined `name` in
+    store `id` gives back `name`, for every identifier -/
+theorem strip_roundtrip (id : Nat) (n : String) (hb : Cellml.Gen.cellmlUnits.contains n = false)
+    (hn : isIdent n = true) : formatName id n = n := by
+  have hss := prefixName_startsStore id n hb
+  simp only [formatName, nameContainer, startsStore_ne_dimensionless _ hss, Bool.false_eq_true, if_false,
+    canonName_of_startsStore _ hss]
+  exact strip_prefixName_user id n hb hn
+
+/-- built-in names are not prefixed and contain no match: `format` shows pint's canonical spelling of the name
+    (`metre` ↦ `meter`, `litre` ↦ `liter`, every other name itself), in every store -/
+theorem strip_roundtrip_builtin (id : Nat) (b : String) (hb : Cellml.Gen.cellmlUnits.contains b = true) :
+    formatName id b = if b = "dimensionless" then "dimensionless" else canonName b := by
+  have h0 : formatName id b = formatName 0 b := by simp only [formatName, prefixName, hb, if_true]
+  rw [h0]
+  have := List.all_eq_true.mp (by decide +kernel : Cellml.Gen.cellmlUnits.all (fun b =>
+    formatName 0 b == if b = "dimensionless" then "dimensionless" else canonName b) = true) b (by simpa using hb)
+  simpa using this
+
+/-- the general form: after the prefix is removed the scan continues inside the name with `_` as look-behind, so the
+    name comes back exactly when it does not itself contain a further match -/
+theorem strip_roundtrip_general (id : Nat) (n : String) (hb : Cellml.Gen.cellmlUnits.contains n = false) :
+    formatName id n = String.ofList (stripGo ((prefixName id n).length) '_' n.toList) := by
+  have hss := prefixName_startsStore id n hb
+  simp only [formatName, nameContainer, startsStore_ne_dimensionless _ hss, Bool.false_eq_true, if_false,
+    canonName_of_startsStore _ hss]
+  unfold strip
+  rw [prefixName_toList id n hb]
+  have hm := matchStorePrefix_prefixed (Nat.toDigits 10 id) n.toList Nat.toDigits_ne_nil
+    (fun c hc => Nat.isDigit_of_mem_toDigits (by decide) (by decide) hc)
+  simp only [List.cons_append, List.nil_append] at hm ⊢
+  rw [stripGo]
+  simp only [show isWordChar ' ' = false by decide, Bool.false_eq_true, if_false, hm]
+
+/-- outside identifiers the round trip fails (not reachable from CellML, whose unit names are identifiers) -/
+theorem strip_not_roundtrip_non_identifier : formatName 0 "a store1_b" = "a b" := by decide +kernel
+
+/-! ### the registry lemma behind the shared case -/
+
+/-- consing an entry whose key the container does not mention leaves the expansion to root units unchanged -/
+theorem expand_cons_unused (n : String) (d : UnitDef) (reg : Registry) (s : Scale) (c : Container)
+    (h : get c n = 0) : expand ((n, d) :: reg) (s, c) ≃₂ expand reg (s, c) :=
+  Iso.expand_cons_unused n d reg s c h
+
+/-- hence scale, root units and dimensionality of such a unit are unchanged, when no definition mentions the key -/
+theorem root_form_cons_unused (n : String) (d : UnitDef) (reg : Registry) (c : Container)
+    (h : get c n = 0) (hreg : Unmentioned reg n) : obsUnit ((n, d) :: reg) c = obsUnit reg c :=
+  obsUnit_cons_unused n d reg c h hreg
+
+/-! ### reachable states -/
+
+/-- every process state reachable from the empty process satisfies the namespace invariant -/
+theorem inv_reachable (ops : List Op) : Inv (run {} ops) := inv_run {} ops inv_empty
+
+/-- store ids are unique: the store at index `s` has id `s` (the class-level counter `_next_id`) -/
+theorem unique_ids (ops : List Op) (s t : Nat) (st st' : Store) (ri rj : Nat)
+    (hs : (run {} ops).stores[s]? = some (st, ri)) (ht : (run {} ops).stores[t]? = some (st', rj))
+    (hne : s ≠ t) : st.id ≠ st'.id := by
+  have h := inv_reachable ops
+  rw [h.ids s st ri hs, h.ids t st' rj ht]; exact hne
+
+/-- a successful definition in store `s` adds exactly one registry key, `prefixName s name`, which was not a key
+    before (so it shadows nothing) -/
+theorem adds_only_own_fresh_key (w : World) (h : Inv w) (s ri : Nat) (st st' : Store) (reg reg' : Registry)
+    (name : String) (elems : List UnitElem) (hs : w.stores[s]? = some (st, ri)) (hr : w.regs[ri]? = some reg)
+    (hok : addUnit reg st name elems = .ok (reg', st')) :
+    (∃ d, reg' = (prefixName s name, d) :: reg) ∧ prefixName s name ∉ keys reg := by
+  have ext := addUnit_ok hok
+  have hid := h.ids s st ri hs
+  obtain ⟨d, hd, _⟩ := ext.regEq
+  refine ⟨⟨d, by rw [← hid]; exact hd⟩, ?_⟩
+  rw [← hid]
+  exact key_fresh w h s ri st reg name hs hr ext.notBuiltin ext.fresh
+
+/-- a rejected definition changes nothing at all -/
+theorem rejected_changes_nothing (w : World) (s : Nat) (name : String) (elems : List UnitElem) (st : Store) (ri : Nat)
+    (reg : Registry) (e : AddErr) (hs : w.regOf s = some (st, ri, reg)) (herr : addUnit reg st name elems = .error e) :
+    step w (.addUnit s name elems) = w := by
+  simp only [step, applyTo, hs, herr]
+
+/-! ### frame -/
+
+/-- **frame**: an operation that does not act on store `j` leaves everything observable through `j` unchanged —
+    whether `j` has its own registry or shares the registry the operation extends. In the shared case the new key
+    carries the acting store's prefix (`prefix_injective`), the units `j` hands out do not mention it
+    (`expand_cons_unused`), and no older definition mentions it because it is new to the registry. -/
+theorem frame (w : World) (h : Inv w) (op : Op) (j : Nat) (hj : j < w.stores.length) (hop : op.actsOn j = false) :
+    obsStore (step w op) j = obsStore w j :=
+  (step_view w h op j hj hop).obsStore
+
+/-- the same for ANY probe name — in particular the names only the other store knows: `is_defined` and `get_unit` -/
+theorem frame_probe (w : World) (h : Inv w) (op : Op) (j : Nat) (hj : j < w.stores.length)
+    (hop : op.actsOn j = false) (name : String) : probe (step w op) j name = probe w j name :=
+  (step_view w h op j hj hop).probe name
+
+/-- **frame_run**: for every list of operations none of which acts on store `j` — any interleaving of definitions in
+    other stores (successful or rejected) and of creations of further stores and registries — `obsStore j` is unchanged -/
+theorem frame_run (w : World) (h : Inv w) (ops : List Op) (j : Nat) (hj : j < w.stores.length)
+    (hops : ∀ op ∈ ops, op.actsOn j = false) : obsStore (run w ops) j = obsStore w j :=
+  (run_view w h ops j hj hops).obsStore
+
+theorem frame_run_probe (w : World) (h : Inv w) (ops : List Op) (j : Nat) (hj : j < w.stores.length)
+    (hops : ∀ op ∈ ops, op.actsOn j = false) (name : String) : probe (run w ops) j name = probe w j name :=
+  (run_view w h ops j hj hops).probe name
+
+/-- unconditional form: after ANY history `ops₀`, any further work elsewhere leaves store `j` as it was -/
+theorem frame_reachable (ops₀ ops : List Op) (j : Nat) (hj : j < (run {} ops₀).stores.length)
+    (hops : ∀ op ∈ ops, op.actsOn j = false) :
+    obsStore (run {} (ops₀ ++ ops)) j = obsStore (run {} ops₀) j := by
+  have : run {} (ops₀ ++ ops) = run (run {} ops₀) ops := by simp [run, List.foldl_append]
+  rw [this]
+  exact frame_run _ (inv_reachable ops₀) ops j hj hops
+
+/-! ### names of one store are unknown in the other; equal names stay distinct -/
+
+/-- `get_unit` of store `j` on a name that only other stores define fails (KeyError), whatever the others do -/
+theorem names_unknown_elsewhere (w : World) (h : Inv w) (ops : List Op) (j : Nat) (hj : j < w.stores.length)
+    (hops : ∀ op ∈ ops, op.actsOn j = false) (name : String) (stj : Store) (rj : Nat) (reg : Registry)
+    (hw : w.regOf j = some (stj, rj, reg)) (hunknown : stj.isDefined name = false) :
+    probe (run w ops) j name = some (false, none) := by
+  rw [frame_run_probe w h ops j hj hops name]
+  have hg : ∃ e, getUnit stj name = .error e := by
+    unfold getUnit
+    split
+    · exact ⟨_, rfl⟩
+    · simp [hunknown]
+  obtain ⟨e, he⟩ := hg
+  simp only [probe, hw, hunknown, obsName, he]
+
+/-- one-step form with the definition visible: after store `i` successfully defines `name`, store `j ≠ i`, which did
+    not know `name`, still does not, although they may share the registry that now holds a key for it -/
+theorem names_unknown_elsewhere_step (w : World) (h : Inv w) (i j : Nat) (hij : i ≠ j) (hj : j < w.stores.length)
+    (name : String) (elems : List UnitElem) (stj : Store) (rj : Nat) (reg : Registry)
+    (hw : w.regOf j = some (stj, rj, reg)) (hunknown : stj.isDefined name = false) :
+    probe (step w (.addUnit i name elems)) j name = some (false, none) := by
+  have := names_unknown_elsewhere w h [.addUnit i name elems] j hj
+    (by intro op hop; simp only [List.mem_singleton] at hop; subst hop; simpa [Op.actsOn] using hij)
+    name stj rj reg hw hunknown
+  simpa [run] using this
+
+/-- equal user names in different stores are different units: different registry keys, so neither container is the
+    other (not even semantically) -/
+theorem same_name_distinct (sti stj : Store) (hid : sti.id ≠ stj.id) (name : String) (a b : Container)
+    (hb : Cellml.Gen.cellmlUnits.contains name = false)
+    (ha : getUnit sti name = .ok a) (hb' : getUnit stj name = .ok b) : ¬ a ≃ b := by
+  rw [getUnit_user sti name a hb ha, getUnit_user stj name b hb hb']
+  intro heq
+  have hne : prefixName stj.id name ≠ prefixName sti.id name :=
+    prefix_injective _ _ _ _ hb hb (fun h => hid (Prod.mk.inj h).1.symm)
+  have := heq (prefixName sti.id name)
+  simp only [get_cons, get_nil, if_true, hne, if_false] at this
+  grind
+
+/-! ### conversion across stores -/
+
+/-- **shared_convert**: units of two stores sharing a registry convert with `Units.factor` of the shared registry, and
+    both units are defined there — so every law of C07 applies across stores -/
+theorem shared_convert (w : World) (h : Inv w) (i j ri : Nat) (sti stj : Store) (reg : Registry) (x y : String)
+    (a b : Container) (hi : w.stores[i]? = some (sti, ri)) (hj : w.stores[j]? = some (stj, ri))
+    (hr : w.regs[ri]? = some reg) (ha : getUnit sti x = .ok a) (hb : getUnit stj y = .ok b) :
+    (∀ f, crossFactor w i x j y = .ok f ↔ factor reg a b = .ok f) ∧
+    allKnown reg a = true ∧ allKnown reg b = true := by
+  refine ⟨?_, getUnit_allKnown w h i ri sti reg hi hr x a ha, getUnit_allKnown w h j ri stj reg hj hr y b hb⟩
+  intro f
+  rw [crossFactor_shared w i j ri sti stj reg x y a b hi hj hr ha hb]
+  cases factor reg a b <;> simp
+
+/-- units of equal dimension in two stores sharing a registry convert in both directions; the factors are inverse
+    to each other and equal the ratio of the root scales -/
+theorem shared_convert_total (w : World) (h : Inv w) (i j ri : Nat) (sti stj : Store) (reg : Registry) (x y : String)
+    (a b : Container) (hi : w.stores[i]? = some (sti, ri)) (hj : w.stores[j]? = some (stj, ri))
+    (hr : w.regs[ri]? = some reg) (ha : getUnit sti x = .ok a) (hb : getUnit stj y = .ok b)
+    (hd : dimsOf reg a ≃ dimsOf reg b) :
+    ∃ f g, crossFactor w i x j y = .ok f ∧ crossFactor w j y i x = .ok g ∧ add f g ≃ [] ∧
+      f ≃ sub (toRoot reg a).1 (toRoot reg b).1 := by
+  obtain ⟨hx, hka, hkb⟩ := shared_convert w h i j ri sti stj reg x y a b hi hj hr ha hb
+  obtain ⟨hy, _, _⟩ := shared_convert w h j i ri stj sti reg y x b a hj hi hr hb ha
+  obtain ⟨f, hf⟩ := Cellml.Props.C07.same_dims_convert reg a b hka hkb hd
+  obtain ⟨g, hg, hfg⟩ := Cellml.Props.C07.factor_inv reg a b f hf
+  exact ⟨f, g, (hx f).mpr hf, (hy g).mpr hg, hfg, Cellml.Props.C07.factor_ratio reg a b f hf⟩
+
+/-- a dimension mismatch across stores is reported, never converted -/
+theorem shared_convert_mismatch (w : World) (h : Inv w) (i j ri : Nat) (sti stj : Store) (reg : Registry) (x y : String)
+    (a b : Container) (hi : w.stores[i]? = some (sti, ri)) (hj : w.stores[j]? = some (stj, ri))
+    (hr : w.regs[ri]? = some reg) (ha : getUnit sti x = .ok a) (hb : getUnit stj y = .ok b)
+    (hd : ¬ dimsOf reg a ≃ dimsOf reg b) : crossFactor w i x j y = .error (.unit .dimensionality) := by
+  obtain ⟨_, hka, hkb⟩ := shared_convert w h i j ri sti stj reg x y a b hi hj hr ha hb
+  rw [crossFactor_shared w i j ri sti stj reg x y a b hi hj hr ha hb,
+    Cellml.Props.C07.mismatch_is_error' reg a b hka hkb hd]
+
+/-- stores with separate registries never convert into each other -/
+theorem separate_registries_fail (w : World) (i j ri rj : Nat) (sti stj : Store) (regi regj : Registry) (x y : String)
+    (hi : w.stores[i]? = some (sti, ri)) (hj : w.stores[j]? = some (stj, rj))
+    (hri : w.regs[ri]? = some regi) (hrj : w.regs[rj]? = some regj) (hne : ri ≠ rj) :
+    ∃ e, crossFactor w i x j y = .error e ∧ (e = .crossRegistry ∨ e = .keyError) :=
+  crossFactor_separate w i j ri rj sti stj regi regj x y hi hj hri hrj hne
+
+/-! ### the memoised singularity analysis (`lru_cache` on `_get_singularity`, `_generate_piecewise`) -/
+
+/-- **cache_sound**: whatever sequence of calls from whatever models filled the cache, a memoised call returns the
+    value of the function at its key, and the cache stays sound (evicting entries keeps it sound too). The keys of the
+    two `lru_cache`s contain the voltage variable `V`, a `sympy.Dummy` unique to its model, so equal keys come from
+    the same model; key equality being real equality (`LawfulBEq`) is the assumption about SymPy here. -/
+theorem cache_sound {κ ν : Type} [BEq κ] [LawfulBEq κ] (f : κ → ν) (cache : List (κ × ν)) (h : CacheOk f cache)
+    (k : κ) : (cachedCall f cache k).1 = f k ∧ CacheOk f (cachedCall f cache k).2 := by
+  unfold cachedCall
+  cases hl : cache.lookup k with
+  | some v =>
+      refine ⟨?_, h⟩
+      have : (k, v) ∈ cache := by
+        clear h
+        induction cache with
+        | nil => simp [List.lookup] at hl
+        | cons hd tl ih =>
+            obtain ⟨k', v'⟩ := hd
+            by_cases hk : k = k'
+            · subst hk; simp [List.lookup] at hl; simp [hl]
+            · have : (k == k') = false := by simpa using hk
+              simp only [List.lookup, this] at hl
+              exact List.mem_cons_of_mem _ (ih hl)
+      exact h k v this
+  | none =>
+      refine ⟨rfl, ?_⟩
+      intro k' v' hm
+      rcases List.mem_cons.mp hm with hm | hm
+      · cases hm; rfl
+      · exact h k' v' hm
+
+theorem cache_evict_sound {κ ν : Type} (f : κ → ν) (cache : List (κ × ν)) (h : CacheOk f cache) (n : Nat) :
+    CacheOk f (cache.take n) := fun k v hm => h k v (List.mem_of_mem_take hm)
+
+/-- any interleaving of memoised calls returns exactly the uncached values -/
+theorem cache_transparent {κ ν : Type} [BEq κ] [LawfulBEq κ] (f : κ → ν) (ks : List κ) :
+    ∀ cache, CacheOk f cache → cachedCalls f cache ks = ks.map f := by
+  induction ks with
+  | nil => intro _ _; rfl
+  | cons k ks ih =>
+      intro cache h
+      obtain ⟨h1, h2⟩ := cache_sound f cache h k
+      simp only [cachedCalls, List.map_cons, h1, ih _ h2]
+
+/-! ### non-vacuity: concrete processes meet the hypotheses, and the conclusions are not trivially true -/
+
+/-- two stores SHARING a registry both define `mV`, with different meanings; a third store has its own registry -/
+def demoOps : List Op :=
+  [.newStore none, .newStore (some 0), .newStore none,
+   .addUnit 0 "mV" [{ units := "volt", pfx := some "milli" }],
+   .addUnit 1 "mV" [{ units := "volt", pfx := some "micro" }],
+   .addBase 1 "widget",
+   .addUnit 1 "mV" [{ units := "volt" }],                       -- rejected: already known to store 1
+   .addUnit 2 "kW" [{ units := "watt", pfx := some "kilo" }]]
+
+example : (run {} demoOps).stores.map (fun p => (p.1.id, p.1.known, p.2)) =
+    [(0, ["mV"], 0), (1, ["widget", "mV"], 0), (2, ["kW"], 1)] := by decide +kernel
+
+/-- store 0 after everything = store 0 right after its own definition (the operations on 1 and 2 are invisible):
+    the hypotheses of `frame_reachable` are met by the demo -/
+example : obsStore (run {} demoOps) 0 = obsStore (run {} (demoOps.take 4)) 0 :=
+  frame_reachable (demoOps.take 4) (demoOps.drop 4) 0 (by decide +kernel) (by decide)
+example : (obsStore (run {} demoOps) 0).map (·.known) = some ["mV"] := by decide +kernel
+example : (obsStore (run {} demoOps) 0).map (·.units.length) = some 34 := by decide +kernel
+
+/-- and the observation is not empty: `mV` of store 0 is 10⁻³ volt, `mV` of store 1 is 10⁻⁶ volt -/
+example : (probe (run {} demoOps) 0 "mV").map (fun p => (p.1, p.2.map (·.scale))) =
+    some (true, some [(2, -3), (5, -3)]) := by decide +kernel
+example : (probe (run {} demoOps) 1 "mV").map (fun p => (p.1, p.2.map (·.scale))) =
+    some (true, some [(2, -6), (5, -6)]) := by decide +kernel
+
+/-- `widget` is known to store 1 only; store 0 shares the registry holding `store1_widget` and still does not see it -/
+example : probe (run {} demoOps) 0 "widget" = some (false, none) := by decide +kernel
+example : (probe (run {} demoOps) 1 "widget").map (·.1) = some true := by decide +kernel
+
+/-- the two `mV` convert into each other through the shared registry: 1 mV(store 0) = 1000 mV(store 1) -/
+example : crossFactor (run {} demoOps) 0 "mV" 1 "mV" = .ok [(2, 3), (5, 3)] := by decide +kernel
+example : crossFactor (run {} demoOps) 1 "mV" 0 "volt" = .ok [(2, -6), (5, -6)] := by decide +kernel
+/-- across separate registries conversion is refused -/
+example : crossFactor (run {} demoOps) 0 "mV" 2 "volt" = .error .crossRegistry := by decide +kernel
+
+/-- the hypotheses of `frame_run` hold for the foreign operations of the demo -/
+example : ∀ op ∈ demoOps.drop 4, op.actsOn 0 = false := by decide
+
+example : prefixName 1 "mV" = "store1_mV" ∧ prefixName 12 "store1_q" = "store12_store1_q" ∧
+    prefixName 3 "volt" = "volt" := by decide +kernel
+example : formatName 12 "store1_q" = "store1_q" := by decide +kernel
+example : strip "1000.0 store3_mV / store12_store1_q ** 2" = "1000.0 mV / store1_q ** 2" := by decide +kernel
+example : isIdent "uA_per_cm2" = true := by decide +kernel
+
+end Cellml.Props.C16
